@@ -222,7 +222,7 @@ static std::vector<Instance> mk(const std::string &tier) {
 	{ std::vector<int> a; for(int i = 0; i < D; i++) a.push_back((i * 5) % D); shapes.push_back(a); }
 	for(size_t s = 0; s < shapes.size(); s++)
 		v.push_back(group_instance<RbHarness<Tree, false>>("rb-distinct-N" + std::to_string(D) + "-" + std::to_string(s), D, {shapes[s]}));
-	int ON = th ? 6 : 5;
+	int ON = th ? 8 : 7;
 	v.push_back(group_instance<RbHarness<OTree, true>>("rborder-N" + std::to_string(ON), ON, {std::vector<int>(ON, 0)}));
 	return v;
 }
